@@ -7,6 +7,7 @@ import (
 	"errors"
 	"fmt"
 	"io"
+	"math"
 	"mime/multipart"
 	"net/http"
 	"net/http/httptest"
@@ -37,6 +38,14 @@ type c18Val struct {
 	On      bool     `query:"on" form:"on" json:"on" xml:"on"`
 	Tags    []int    `query:"tags" form:"tags" json:"tags" xml:"tags"`
 	A       string   `query:"a" form:"a" json:"a" xml:"a"`
+}
+
+// 64-bit integers
+type c18Big struct {
+	XMLName xml.Name `xml:"b" json:"-" query:"-" form:"-"`
+	ID      int64    `query:"id" form:"id" json:"id" xml:"id"`
+	U       uint64   `query:"u" form:"u" json:"u" xml:"u"`
+	L       []int64  `query:"l" form:"l" json:"l" xml:"l"`
 }
 
 // what the handler behind a data-reading middleware binds
@@ -522,6 +531,28 @@ func c18Run(c c18Case, st *fw.Stats) []fw.Viol {
 				add("explicit:panic", fmt.Sprintf("Context.%s panicked: %v", eb, pv))
 			} else if err != nil || obj.Name != want {
 				add("explicit:source", fmt.Sprintf("Context.%s bound Name=%q err=%v, expected %q", eb, obj.Name, err, want))
+			}
+		}
+		// integers at and beyond the edge of what a float64 holds exactly: every source carries them digit by digit
+		for _, n := range []int64{0, -1, 1 << 53, 1<<53 + 1, -(1<<53 + 1), 1234567890123456789, math.MaxInt64, math.MinInt64} {
+			for _, u := range []uint64{1<<53 + 1, math.MaxUint64} {
+				st.Evals++
+				st.Nontrivial++
+				want := c18Big{ID: n, U: u, L: []int64{n, 1<<53 + 1}}
+				method := "POST"
+				if c.Format == "query" {
+					method = "GET"
+				}
+				req := c18Request(method, c.Format, [][2]string{{"id", strconv.FormatInt(n, 10)}, {"u", strconv.FormatUint(u, 10)}, {"l", strconv.FormatInt(n, 10)}, {"l", strconv.FormatInt(1<<53+1, 10)}}, want)
+				var got c18Big
+				var err error
+				if pv := try(func() { err = binding.Auto(req, &got) }); pv != nil {
+					add("roundtrip:panic", fmt.Sprintf("%s source with the integers %d / %d: Auto panicked: %v", c.Format, n, u, pv))
+					continue
+				}
+				if err != nil || got.ID != want.ID || got.U != want.U || fmt.Sprint(got.L) != fmt.Sprint(want.L) {
+					add("roundtrip:"+c.Format+":large-integer", fmt.Sprintf("%s source with id=%d u=%d l=%v binds to id=%d u=%d l=%v (err=%v)", c.Format, want.ID, want.U, want.L, got.ID, got.U, got.L, err))
+				}
 			}
 		}
 		if c.Format == "xml" || c.Format == "json" {
